@@ -54,9 +54,10 @@ fn twin_viol(coll: &str, family: &str, sig: String, msg: String, ctor: String, l
 }
 
 fn twin_key<C: KeyColl>(rep: &mut Report, hint_a: usize, hint_b: usize, prefix: &[KOp], suffix: &[KOp], hist: u64) {
-    let mon = KMon { pred: true, get: true, export: true, empty: true, structure: true, slots: true, cblive: false, phys: false, capacity: false };
-    // the prefix runs under the structure monitors only so that the peak population is known
-    let none = KMon { structure: true, slots: true, ..KMon::none() };
+    // C12 is an observational property: the verdict comes from the answers (reference model and
+    // fresh twin); the arena itself is C02's / C11's business
+    let mon = KMon { pred: true, get: true, export: true, empty: true, structure: false, slots: false, cblive: false, phys: false, capacity: false };
+    let none = KMon::none();
     let mut lines: Vec<String> = prefix.iter().map(|o| o.line()).collect();
     let ctor = format!("hint={} twin_hint={}", hint_a, hint_b);
     let mut a = KeyExec::<C>::new(hint_a);
@@ -118,8 +119,8 @@ fn twin_key<C: KeyColl>(rep: &mut Report, hint_a: usize, hint_b: usize, prefix: 
 }
 
 fn twin_ord<C: ord::OrdColl>(rep: &mut Report, hint_a: usize, hint_b: usize, uni: (i32, i32), prefix: &[OOp], suffix: &[OOp], hist: u64) {
-    let mon = OMon { lookup: true, handle: true, steps: true, held: true, structure: true, slots: true, removal_stats: false };
-    let none = OMon { structure: true, slots: true, ..OMon::default() };
+    let mon = OMon { lookup: true, handle: true, steps: true, held: true, structure: false, slots: false, removal_stats: false };
+    let none = OMon::default();
     let mut lines: Vec<String> = prefix.iter().map(|o| o.line()).collect();
     let ctor = format!("hint={} uni={}..{} twin_hint={}", hint_a, uni.0, uni.1, hint_b);
     let mut a = OrdExec::<C>::new(hint_a, uni);
@@ -175,7 +176,7 @@ fn twin_ord<C: ord::OrdColl>(rep: &mut Report, hint_a: usize, hint_b: usize, uni
 }
 
 fn twin_seg(rep: &mut Report, dom: (i64, i64), prefix: &[SOp], suffix: &[SOp], hist: u64) {
-    let mon = SMon { query: true, purge: true, tiling: true, layout: true };
+    let mon = SMon { query: true, purge: false, tiling: false, layout: false };
     let none = SMon::default();
     let mut lines: Vec<String> = prefix.iter().map(|o| o.line()).collect();
     let ctor = format!("coord=i32 lo={} hi={}", dom.0, dom.1);
@@ -972,23 +973,25 @@ fn big_lookup_held_case(coll: &str, n: usize, order: &str, hint: usize, rng: &mu
 
 /// C11 / C12 on large trees: clear() of a tall tree must release every slot, a cleared tree must
 /// behave like a fresh one, and fill / clear cycles must not grow the arena
-fn big_clear_case(coll: &str, n: usize, order: &str, hint: usize, rng: &mut Rng, rep: &mut Report) -> Result<(), Fail> {
+fn big_clear_case(coll: &str, n: usize, order: &str, hint: usize, rng: &mut Rng, rep: &mut Report, judge_slots: bool) -> Result<(), Fail> {
     let keys = order_keys(n, order, rng);
     let sample: Vec<i32> = big_probes(n, &(0..n as i32).collect::<Vec<_>>(), rng).into_iter().take(300).collect();
     let refill: Vec<i32> = keys.iter().copied().take(3000.min(n)).collect();
     macro_rules! after_clear {
         ($snap:expr, $cycle:expr) => {{
-            let s = $snap;
             rep.evaluations += 1;
             rep.counters.inc("big_clears_checked");
-            snap::check_slots(&s).map_err(|e| Fail::new("slots-clear", format!("n={} cycle {}: after clear: {}", n, $cycle, e.chars().take(200).collect::<String>())))?;
-            if s.root != i_tree::EMPTY_REF || s.free.len() != s.slots.len() - 1 {
-                return Err(Fail::new("slots-clear", format!("n={} cycle {}: after clear: root {} and {} of {} slots free", n, $cycle, s.root as i32, s.free.len(), s.slots.len() - 1)));
-            }
-            let bound = 4 * (n + 1) + hint.max(8);
-            rep.counters.max("max_buffer_len_seen", s.slots.len() as u64);
-            if s.slots.len() > bound {
-                return Err(Fail::new("slots-bound", format!("n={} cycle {}: arena has {} slots for a peak population of {} (bound {})", n, $cycle, s.slots.len(), n, bound)));
+            if judge_slots {
+                let s = $snap;
+                snap::check_slots(&s).map_err(|e| Fail::new("slots-clear", format!("n={} cycle {}: after clear: {}", n, $cycle, e.chars().take(200).collect::<String>())))?;
+                if s.root != i_tree::EMPTY_REF || s.free.len() != s.slots.len() - 1 {
+                    return Err(Fail::new("slots-clear", format!("n={} cycle {}: after clear: root {} and {} of {} slots free", n, $cycle, s.root as i32, s.free.len(), s.slots.len() - 1)));
+                }
+                let bound = 4 * (n + 1) + hint.max(8);
+                rep.counters.max("max_buffer_len_seen", s.slots.len() as u64);
+                if s.slots.len() > bound {
+                    return Err(Fail::new("slots-bound", format!("n={} cycle {}: arena has {} slots for a peak population of {} (bound {})", n, $cycle, s.slots.len(), n, bound)));
+                }
             }
         }};
     }
@@ -1090,8 +1093,8 @@ pub fn big_case(coll: &str, n: usize, order: &str, hint: usize, seed: u64, rep: 
 pub fn big_case_with(coll: &str, n: usize, order: &str, hint: usize, seed: u64, rep: &mut Report, probes: &str) -> Result<(), Fail> {
     let judge_structure = probes.is_empty();
     let mut rng = Rng::new(seed).derive(n as u64 ^ 0xB16);
-    if probes == "clear" {
-        return big_clear_case(coll, n, order, hint, &mut rng, rep);
+    if probes == "clear" || probes == "clear-obs" {
+        return big_clear_case(coll, n, order, hint, &mut rng, rep, probes == "clear");
     }
     if probes == "kquery" {
         return big_kquery_case(n, order, hint, &mut rng, rep);
